@@ -480,7 +480,7 @@ impl Check for C13 {
         "C13"
     }
     fn rule(&self) -> String {
-        "exhaustive: every timestamp sequence of length L over 0..=6 ms x bounded-out-of-order delays 0..=4 ms (+ monotonic) x 6 late-data configurations, step-monitored after every add_event (so every prefix is checked); the Side and Allowed(1) configurations once more through a WatermarkGenerator + LateDataHandler pair driven by hand with the consumer calling clear_side_output() before offers #2 and #4; long: for every late-data configuration one sequence of 1500 (thorough 6000) late events after one high instant, through WatermarkedStream and through the hand-driven components; random (1 case in 30 with one or two instants in the upper half of the u64 range; 1 case in 24 with a bounded-out-of-order delay beyond u64 milliseconds: Duration::MAX, from_secs(u64::MAX), from_millis(u64::MAX)): lengths 1..=12 over a dense domain, also on an epoch-sized base, one in four on a time scale of x100..x1000 (delays and lateness bounds of a second and more), one in three through the hand-driven components with clear_side_output() at random points. A case is non-trivial when at least one event was late AND the watermark advanced at least once; distinct by (configuration, timestamp sequence).".into()
+        "exhaustive: every timestamp sequence of length L over 0..=6 ms x bounded-out-of-order delays 0..=4 ms (+ monotonic) x 6 late-data configurations, step-monitored after every add_event (so every prefix is checked); the Side and Allowed(1) configurations once more through a WatermarkGenerator + LateDataHandler pair driven by hand with the consumer calling clear_side_output() before offers #2 and #4; long: for every late-data configuration one sequence of 1500 (thorough 6000) late events after one high instant, through WatermarkedStream and through the hand-driven components; random (1 case in 30 with one or two instants in the upper half of the u64 range; 1 case in 24 with a bounded-out-of-order delay beyond u64 milliseconds: Duration::MAX, from_secs(u64::MAX), from_millis(u64::MAX)): lengths 1..=12 over a dense domain, also on an epoch-sized base, one in four on a time scale of x100..x1000 (delays and lateness bounds of a second and more), one in three through the hand-driven components with clear_side_output() at random points; one more case in 6 with a delay / lateness bound that is not a round number (1001..1300, 4097, 65537, 86400001, random up to 101000) and events exactly at, one before and one after the instants the bound separates. A case is non-trivial when at least one event was late AND the watermark advanced at least once; distinct by (configuration, timestamp sequence).".into()
     }
     fn assumptions(&self) -> Vec<String> {
         vec![
@@ -625,6 +625,44 @@ impl Check for C13 {
                     (base, ts)
                 };
                 check_case(&Case { wm, late, base, ts, clears }, st);
+                // one more case in 6: a delay / lateness bound that is NOT a round number (1001,
+                // 1003 .. 1300, a few thousand and odd), with events exactly at, one before and
+                // one after the instants that the bound separates
+                if rng.chance(1, 6) {
+                    let odd = |rng: &mut Rng| match rng.below(4) {
+                        0 => 1001 + 2 * rng.below(12) as u64,
+                        1 => 1000 + rng.below(301) as u64,
+                        2 => *rng.pick(&[1118u64, 1235, 4097, 65_537, 86_400_001, 999, 1023, 1025]),
+                        _ => 1000 + rng.below(100_000) as u64,
+                    };
+                    let d = odd(rng);
+                    let l = odd(rng);
+                    let wm = if rng.chance(1, 5) { Wm::Monotonic } else { Wm::Bounded(d) };
+                    let late = match rng.below(4) {
+                        0 => Late::Drop,
+                        1 => Late::Side,
+                        _ => Late::Allowed(l),
+                    };
+                    let dd = if matches!(wm, Wm::Bounded(_)) { d } else { 0 };
+                    let h = d + l + 2 + rng.below(5000) as u64;
+                    let mut ts = vec![h];
+                    for _ in 0..2 + rng.below(8) {
+                        let wmk = h - dd; // the watermark after h
+                        let t = match rng.below(8) {
+                            0 => wmk,
+                            1 => wmk.saturating_sub(1),
+                            2 => wmk + 1,
+                            3 => wmk.saturating_sub(l),
+                            4 => wmk.saturating_sub(l + 1),
+                            5 => wmk.saturating_sub(l).saturating_add(1),
+                            6 => h + 1 + rng.below(3) as u64,
+                            _ => rng.below(h as usize + 1) as u64,
+                        };
+                        ts.push(t);
+                    }
+                    st.count("cases_with_a_delay_or_lateness_bound_that_is_not_a_round_number");
+                    check_case(&Case { wm, late, base: 0, ts, clears: None }, st);
+                }
             }
         });
     }
